@@ -333,42 +333,39 @@ impl NetflowParser {
     ///
     #[inline]
     pub fn parse_bytes(&mut self, packet: &[u8]) -> Vec<NetflowPacket> {
-        if packet.is_empty() {
-            return vec![];
+        let mut results = vec![];
+        // Bytes still to be parsed.  (This used to recurse once per packet on a copy of
+        // the remainder, which overflowed the stack on buffers chaining thousands of
+        // packets.)
+        let mut packet = packet;
+
+        while !packet.is_empty() {
+            match self.parse_packet_by_version(packet) {
+                Ok(parsed_netflow) => {
+                    // the remainder handed back is the unparsed tail of `packet`
+                    let consumed = packet
+                        .len()
+                        .saturating_sub(parsed_netflow.remaining.len());
+                    results.push(parsed_netflow.result);
+                    if consumed == 0 {
+                        break;
+                    }
+                    packet = &packet[consumed..];
+                }
+                Err(e) => {
+                    match e {
+                        NetflowParseError::UnallowedVersion(_) => {}
+                        e => results.push(NetflowPacket::Error(NetflowPacketError {
+                            error: e,
+                            remaining: packet.to_vec(),
+                        })),
+                    }
+                    break;
+                }
+            }
         }
 
-        match self.parse_packet_by_version(packet) {
-            Ok(parsed_netflow) => {
-                let mut results = vec![parsed_netflow.result];
-                if !parsed_netflow.remaining.is_empty() {
-                    results.extend(self.parse_bytes(&parsed_netflow.remaining));
-                }
-                results
-            }
-            Err(e) => match e {
-                NetflowParseError::Incomplete(_) => {
-                    vec![NetflowPacket::Error(NetflowPacketError {
-                        error: e,
-                        remaining: packet.to_vec(),
-                    })]
-                }
-                NetflowParseError::Partial(partial) => {
-                    vec![NetflowPacket::Error(NetflowPacketError {
-                        error: NetflowParseError::Partial(partial),
-                        remaining: packet.to_vec(),
-                    })]
-                }
-                NetflowParseError::UnknownVersion(_) => {
-                    vec![NetflowPacket::Error(NetflowPacketError {
-                        error: e,
-                        remaining: packet.to_vec(),
-                    })]
-                }
-                NetflowParseError::UnallowedVersion(_) => {
-                    vec![]
-                }
-            },
-        }
+        results
     }
 
     /// Takes a Netflow packet slice and returns a vector of Parsed NetflowCommonFlowSet
